@@ -232,7 +232,7 @@ func ruleOverlapAlign(w *World, r *Report) {
 			ia, ib := -1, -1
 			isSplitOf := func(v ssa.Value, p *ssa.Parameter) bool {
 				sc, ok := resolve(v).(*ssa.Call)
-				return ok && calleeIs(sc, "strings", "Split") && resolve(sc.Call.Args[0]) == ssa.Value(p)
+				return ok && isSplitCall(sc, 5) && resolve(sc.Call.Args[0]) == ssa.Value(p)
 			}
 			whole := map[int]bool{}
 			for i, arg := range hc.Call.Args {
